@@ -169,6 +169,22 @@ pub fn job_c02(out_dir: &str, tier: &str, seed: u64) {
             push_product(&mut sh, "c02", "C02", &mut n, &cfg, input, base, others);
         }
     }
+    // the buffer life cycle (gen::buffer_cycle_cases): five-write schedules that fill, partly consume, empty and refill
+    // the parsing buffer, against the single write
+    for (bi, (input, scheds)) in gen::buffer_cycle_cases().iter().enumerate() {
+        for (hi, hs_idx) in [1usize, 6, 12, 0, 5].iter().enumerate() {
+            if quick && (hi + bi) % 2 == 1 && hi > 1 { continue; }
+            let (_, hs) = &sets[*hs_idx % sets.len()];
+            let cfg = gen::merge(hs, &json!({"strict": false, "enc": "utf-8", "mem": {"prealloc": 1024}}));
+            let base = observation("single-write", &driver::run(&cfg, input, &[], &RunOpts::default()), &all);
+            let mut others = Vec::new();
+            for cuts in scheds {
+                let o = observation("chunked", &driver::run(&cfg, input, cuts, &RunOpts::default()), &all);
+                others.push((o, json!({"cuts": cuts})));
+            }
+            push_product(&mut sh, "c02", "C02", &mut n, &cfg, input, base, others);
+        }
+    }
     sh.finish(json!({"rule": "for every (configuration, input): the single-write observation and every distinct observation found among the schedules (every 1-cut, 2-cuts for short inputs, byte-wise, empty writes, random k-cuts) plus rewrite_str; inputs: every fragment, ordered pairs over a seed-rotated pool, seeded documents / fragment sequences / random bytes / non-ASCII; 13 observer and 5 fragmentation-invariant mutating handler sets x encodings x prealloc. evaluations counts schedules run; distinct = distinct product records."}));
 }
 
